@@ -2,7 +2,7 @@
 resource tracker) through real ``Parallel`` calls with numpy arrays large enough to be memmapped.
 Interpreter: python3-vt (numpy) with PYTHONPATH = repo under test.
 
-usage: c20_parallel_np.py <scratch> normal|kill|kill-rel|terminate-pending|kill-werror      -> one JSON line on stdout
+usage: c20_parallel_np.py <scratch> normal|kill|kill-rel|terminate-pending|two-calls|kill-werror      -> one JSON line on stdout
 
 normal: two calls inside one ``with Parallel`` block, then a normal interpreter exit.
 kill  : the tasks block; the parent process is SIGKILLed in the middle of the call, then (loky workers
@@ -11,6 +11,8 @@ kill-rel: as kill, with JOBLIB_TEMP_FOLDER given as a relative name and the trac
 terminate-pending: MemmappingExecutor.terminate(kill_workers=False) while a submitted task whose argument was
         dumped to a tracked temp file is still pending behind a blocking task (one worker): the pending user must
         still find its file and return the right value.
+two-calls: two Parallel objects share the reusable loky executor; call B (generator) is blocked on a task while the
+        unrelated call A completes: B's memmap file, folder and context must survive the end of A.
 kill-werror: the same with ``python -W error`` (inherited by the tracker): known finding F18b.
 Observed: the workers see an existing memmap file under JOBLIB_TEMP_FOLDER while the call runs;
 after the parent is gone (and its workers and tracker have ended) nothing is left there.
@@ -97,6 +99,76 @@ print(json.dumps({"before": [os.path.basename(x) for x in before], "res": res, "
 """
 
 
+WORKLOAD_TWO_CALLS = r"""
+import json, os, sys, time
+import numpy as np
+import joblib
+from joblib import Parallel, delayed
+
+flag_dir = sys.argv[1]
+root = os.environ["JOBLIB_TEMP_FOLDER"]
+
+def total(a, i):
+    return float(a.sum()) + i
+
+def small(i):
+    return i + 1
+
+def blocker(release):
+    t0 = time.time()
+    while not os.path.exists(release) and time.time() - t0 < 40:
+        time.sleep(0.02)
+    return -1.0
+
+def wait(cond, limit=20):
+    t0 = time.time()
+    while not cond() and time.time() - t0 < limit:
+        time.sleep(0.02)
+    return cond()
+
+big = np.arange(20000, dtype=np.float64)
+release = os.path.join(flag_dir, "release")
+out = {"setup": [], "problems": []}
+# call B: two quick tasks on a memmapped array and one long task; B is still running during the checks
+pb = Parallel(n_jobs=2, max_nbytes=1000, return_as="generator", pre_dispatch=2, batch_size=1)
+gen_b = pb([delayed(total)(big, 0), delayed(blocker)(release), delayed(total)(big, 2)])
+first = next(gen_b)
+if not wait(lambda: pb.n_completed_tasks >= 2):
+    out["setup"].append("quick tasks of B did not finish")
+time.sleep(0.5)
+manager = pb._backend._workers._temp_folder_manager
+folder_b = manager._cached_temp_folders.get(pb._id)
+files_b = [os.path.join(folder_b, f) for f in os.listdir(folder_b)] if folder_b and os.path.isdir(folder_b) else []
+out["files_b"] = len(files_b)
+if not files_b:
+    out["setup"].append("call B has no memmap file")
+# call A: unrelated short call on the same reusable executor, completes while B is unfinished
+pa = Parallel(n_jobs=2, max_nbytes=1000)
+res_a = pa(delayed(small)(i) for i in range(4))
+out["res_a"] = res_a
+if pb._backend._workers is None or pb._backend._workers._temp_folder_manager is not manager:
+    out["setup"].append("B is not running any more / the calls do not share one executor")
+time.sleep(0.7)   # let the tracker process what the end of A sent
+for f in files_b:
+    if not os.path.exists(f):
+        out["problems"].append("memmap file of the still running call B was deleted when the unrelated call A finished")
+if folder_b and not os.path.isdir(folder_b):
+    out["problems"].append("temporary folder of the still running call B was deleted when call A finished")
+if pb._id not in manager._cached_temp_folders:
+    out["problems"].append("context of the still running call B was forgotten by the manager when call A finished")
+open(release, "w").close()
+rest = list(gen_b)
+out["res_b_ok"] = ([first] + rest == [float(big.sum()), -1.0, float(big.sum()) + 2])
+if not out["res_b_ok"]:
+    out["problems"].append("wrong results for call B: %r" % ([first] + rest,))
+del gen_b
+wait(lambda: not any(os.path.exists(f) for f in files_b), 10)
+if any(os.path.exists(f) for f in files_b):
+    out["problems"].append("files of call B not deleted after B ended")
+print(json.dumps(out), flush=True)
+"""
+
+
 def gone(pid):
     try:
         with open("/proc/%d/stat" % pid) as f:
@@ -116,7 +188,7 @@ def main():
     env = dict(os.environ, JOBLIB_TEMP_FOLDER="tmp" if mode == "kill-rel" else tmpf)
     errf = open(os.path.join(base, "stderr"), "wb")
     wflags = ["-W", "error"] if mode == "kill-werror" else []
-    p = subprocess.Popen([sys.executable] + wflags + ["-c", WORKLOAD_TERMINATE if mode == "terminate-pending" else WORKLOAD, flags, mode], env=env, stdout=subprocess.PIPE, stderr=errf,
+    p = subprocess.Popen([sys.executable] + wflags + ["-c", {"terminate-pending": WORKLOAD_TERMINATE, "two-calls": WORKLOAD_TWO_CALLS}.get(mode, WORKLOAD), flags, mode], env=env, stdout=subprocess.PIPE, stderr=errf,
                          stdin=subprocess.DEVNULL, cwd=base)
     res = {"mode": mode, "flags": []}
 
@@ -166,7 +238,7 @@ def main():
                 time.sleep(0.05)
         res["left"] = sorted(os.listdir(tmpf))
         res["waited_s"] = round(time.time() - t0, 2)
-    elif mode == "terminate-pending":
+    elif mode in ("terminate-pending", "two-calls"):
         pass  # handled below (own workload)
     else:
         try:
@@ -193,9 +265,9 @@ def main():
         while os.listdir(tmpf) and time.time() - t0 < 5:
             time.sleep(0.05)
         res["left"] = sorted(os.listdir(tmpf))
-    if mode == "terminate-pending":
+    if mode in ("terminate-pending", "two-calls"):
         try:
-            out, _ = p.communicate(timeout=60)
+            out, _ = p.communicate(timeout=90)
             res["workload"] = json.loads(out.decode().strip().splitlines()[-1])
         except subprocess.TimeoutExpired:
             p.kill()
